@@ -22,7 +22,7 @@ RULE = ('small generated samples (N in 1..5, D in 1..4, distinct metadata in eve
         'reorders, repeats or drops columns; distinct = (shape, key)')
 ASSUMPTIONS = ['NumPy indexing of the plain array is the value oracle', 'results with ndim >= 3 are not judged',
                'sub-indexing of 1-D event vectors: values compared, metadata observed only']
-MIN_CHECKS = {'quick': 20000, 'thorough': 300000}
+MIN_CHECKS = {'quick': 20000, 'thorough': 400000}
 EXHAUSTIVE = {'quick': True, 'thorough': True}
 REQUIRED_COUNTERS = ['chk:getitem', 'chk:setitem', 'chk:chain', 'chk:other-forms', 'chk_alignment_invariant']
 
@@ -241,7 +241,7 @@ def run(ctx):
             ctx.case_done(class_key=('other', monitors.key_shape(key), cls), nontrivial=True,
                           distinct_key=core.digest((N, D, kind), 'other', freeze(key)))
     # ---- chains of up to three indexings ------------------------------------------------
-    nchain = 700 if ctx.tier == 'quick' else 20000
+    nchain = 700 if ctx.tier == 'quick' else 120000
     for cid, rng in ctx.cases([('chain', i) for i in range(nchain)]):
         mon.cid = cid
         N, D = int(rng.integers(1, 6)), int(rng.integers(1, 5))
@@ -276,4 +276,7 @@ def run(ctx):
     # keys NumPy itself generated while the monitors were attached
     for ks, n in list(mon.keys_seen.items())[:60]:
         ctx.note('key shape seen by __getitem__: ' + ks, n)
+    # the repository's own tests as a workload under the same monitors (their assertions are not the oracle)
+    from rv import suite_workload
+    suite_workload.run_repo_suite(ctx, mon, modules=('test_io.py', 'test_stats.py', 'test_transform.py'))
     mon.detach()
